@@ -117,6 +117,73 @@ def substBlock (edits : List Nat) (new : Name) (pos : Nat) : List Stat → List 
   | st :: rest => substStat edits new pos st :: substBlock edits new (pos + 2 * sizeStat st) rest
 end
 
+/-! ## Renaming through the environment (α-renaming)
+
+`alphaBlock d new` rewrites the declaration token at position `d` and every use that the
+*environment* binds to it. It is the semantic description of "rename the declaration at `d`";
+`substBlock (renameEdits …)` is the description by edit positions. -/
+
+/-- a name use under environment `env` -/
+def alphaUse (d : Nat) (new : Name) (env : Env) (n : Name) : Name :=
+  if lookupEnv env n = some d then new else n
+
+/-- declaration tokens at consecutive positions -/
+def alphaBinders (d : Nat) (new : Name) : Nat → List Name → List Name
+  | _, [] => []
+  | pos, n :: ns => (if pos = d then new else n) :: alphaBinders d new (pos + 2) ns
+
+mutual
+def alphaExpr (d : Nat) (new : Name) (env : Env) (pos : Nat) : Expr → Expr
+  | .name n => .name (alphaUse d new env n)
+  | .lit => .lit
+  | .call f args => .call (alphaUse d new env f) (alphaExprs d new env (pos + 4) args)
+  | .func ps body =>
+    .func (alphaBinders d new (pos + 4) ps)
+      (alphaBlock d new (bindNames env (pos + 4) ps) (pos + 2 * (3 + ps.length)) body).1
+def alphaExprs (d : Nat) (new : Name) (env : Env) (pos : Nat) : List Expr → List Expr
+  | [] => []
+  | e :: es => alphaExpr d new env pos e :: alphaExprs d new env (pos + 2 * sizeExpr e) es
+/-- the renamed statement and the environment after it -/
+def alphaStat (d : Nat) (new : Name) (env : Env) (pos : Nat) : Stat → Stat × Env
+  | .locl names vals =>
+    (.locl (alphaBinders d new (pos + 2) names)
+      (alphaExprs d new env (pos + 2 * (1 + names.length + eqTokens vals)) vals), bindNames env (pos + 2) names)
+  | .assign vars vals =>
+    (.assign (vars.map (alphaUse d new env)) (alphaExprs d new env (pos + 2 * (vars.length + 1)) vals), env)
+  | .localFunc n ps body =>
+    let env1 := (n, pos + 4) :: env
+    (.localFunc (if pos + 4 = d then new else n) (alphaBinders d new (pos + 8) ps)
+      (alphaBlock d new (bindNames env1 (pos + 8) ps) (pos + 2 * (5 + ps.length)) body).1, env1)
+  | .funcStat n ps body =>
+    (.funcStat (alphaUse d new env n) (alphaBinders d new (pos + 6) ps)
+      (alphaBlock d new (bindNames env (pos + 6) ps) (pos + 2 * (4 + ps.length)) body).1, env)
+  | .forNum v e1 e2 body =>
+    (.forNum (if pos + 2 = d then new else v) (alphaExpr d new env (pos + 6) e1)
+      (alphaExpr d new env (pos + 6 + 2 * sizeExpr e1) e2)
+      (alphaBlock d new ((v, pos + 2) :: env) (pos + 8 + 2 * sizeExpr e1 + 2 * sizeExpr e2) body).1, env)
+  | .forIn vs e body =>
+    (.forIn (alphaBinders d new (pos + 2) vs) (alphaExpr d new env (pos + 2 * (2 + vs.length)) e)
+      (alphaBlock d new (bindNames env (pos + 2) vs) (pos + 2 * (3 + vs.length) + 2 * sizeExpr e) body).1, env)
+  | .while_ c body =>
+    (.while_ (alphaExpr d new env (pos + 2) c) (alphaBlock d new env (pos + 4 + 2 * sizeExpr c) body).1, env)
+  | .repeat_ body c =>
+    let b := alphaBlock d new env (pos + 2) body
+    (.repeat_ b.1 (alphaExpr d new b.2 (pos + 4 + 2 * sizeBlock body) c), env)
+  | .do_ body => (.do_ (alphaBlock d new env (pos + 2) body).1, env)
+  | .if_ c t e =>
+    (.if_ (alphaExpr d new env (pos + 2) c) (alphaBlock d new env (pos + 4 + 2 * sizeExpr c) t).1
+      (alphaBlock d new env (pos + 6 + 2 * sizeExpr c + 2 * sizeBlock t) e).1, env)
+  | .callS f args => (.callS (alphaUse d new env f) (alphaExprs d new env (pos + 4) args), env)
+def alphaBlock (d : Nat) (new : Name) (env : Env) (pos : Nat) : List Stat → List Stat × Env
+  | [] => ([], env)
+  | st :: rest =>
+    ((alphaStat d new env pos st).1 :: (alphaBlock d new (alphaStat d new env pos st).2 (pos + 2 * sizeStat st) rest).1,
+     (alphaBlock d new (alphaStat d new env pos st).2 (pos + 2 * sizeStat st) rest).2)
+end
+
+/-- the program with the local declaration at token `d` renamed to `new` -/
+def alphaProg (d : Nat) (new : Name) (p : List Stat) : List Stat := (alphaBlock d new [] startPos p).1
+
 /-- the program after applying `rename` at the name token `tok` with the new name `new` -/
 def applyRename (p : List Stat) (tok : Nat) (new : Name) : List Stat :=
   match renameAt p tok with
